@@ -237,6 +237,9 @@ def r_lookup_ast(ctx):
 
 
 def check(ctx):
+    from . import c04
+    c04.group_rule(ctx, 'R10.10', r"^(<&pattern::(Base)?Pattern as miniscript::iter::TreeLike>::as_node|parse::MatchPattern::as_\w+|pattern::BasePattern::(as_identifier|is_ignore))$", 'children of patterns in order; binder of a match pattern', 5)
+    c04.group_rule(ctx, 'R10.9', r'^<(pattern::Pattern|parse::(Assignment|Function|FunctionParam|Match|MatchArm|MatchPattern)|str::(Identifier|FunctionName)) as parse::PestParse>::parse(::\{closure#\d+\})*$', 'construction of binders from the parse (patterns, let, parameters, match arms)', 7)
     r_pairing(ctx)
     r_order_ast(ctx)
     c01.schema_rules(ctx, only={'compile::compile_blk': None, 'compile::<impl ast::Expression>::compile': None, 'compile::<impl ast::Match>::compile': None, 'compile::<impl ast::Call>::compile': r'=Custom\b'})
